@@ -207,7 +207,7 @@ def concretise_value(v, model):
 
 
 def get_target_func(t: Target):
-    path = os.path.join(REPO, t.file)
+    path = t.file if os.path.isabs(t.file) else os.path.join(REPO, t.file)
     src, tree = SX.load_module_ast(path)
     node = SX.find_def(tree, t.qualname)
     mod = importlib.import_module(t.module)
@@ -288,7 +288,7 @@ def verify(t: Target, seed=0, prefixes=None, budget=None):
                 for cl in t.ensures:
                     goal = eval_clause(I, cl.fn, env)
                     kn = None
-                    if cl.known:
+                    if cl.known and known_active(cl.known[0]):
                         kk = eval_clause(I, cl.known[1], env)
                         goal = z3.Or(SX.as_bool_term(kk), SX.as_bool_term(goal))
                         kn = cl.known[0]
@@ -296,14 +296,15 @@ def verify(t: Target, seed=0, prefixes=None, budget=None):
             else:
                 exc = outcome[1]
                 env['exc'] = exc
-                matched = False
-                for c, clauses in t.raises:
-                    if issubclass(exc.cls, c):
-                        matched = True
-                        for cl in clauses:
-                            goal = eval_clause(I, cl.fn, env)
-                            p.oblige(f'raises.{c.__name__}.{cl.name}', goal, info={'clause': cl, 'env': env, 'outcome': outcome})
-                if not matched:
+                entry = match_raises(t, exc.cls)
+                if entry is not None:
+                    c, clauses = entry
+                    for cl in clauses:
+                        goal = eval_clause(I, cl.fn, env)
+                        p.oblige(f'raises.{c.__name__}.{cl.name}', goal, info={'clause': cl, 'env': env, 'outcome': outcome})
+                    if not clauses:
+                        p.oblige(f'raises.{c.__name__}.allowed', True, info={'clause': None, 'env': env, 'outcome': outcome})
+                else:
                     p.oblige(f'noexc.{exc.cls.__name__}@{p.line}', False, info={'clause': None, 'env': env, 'outcome': outcome})
         except PathEnd:
             worklist.extend(p.alternatives)
@@ -369,6 +370,33 @@ def refine_bytes_model(p, ob, model, timeout_ms):
     return model
 
 
+_KNOWN = None
+
+
+def known_active(kid):
+    """a recorded known-finding class only weakens a clause while it is listed (status known) in known_findings.json"""
+    global _KNOWN
+    if _KNOWN is None:
+        import json
+        fn = os.path.join(os.path.dirname(os.path.dirname(os.path.abspath(__file__))), 'known_findings.json')
+        try:
+            with open(fn) as f:
+                _KNOWN = {e['id'] for e in json.load(f).get('findings', []) if e.get('status') == 'known'}
+        except OSError:
+            _KNOWN = set()
+    return kid in _KNOWN
+
+
+def match_raises(t, ecls):
+    """most specific declared exception class matching ecls"""
+    best = None
+    for c, clauses in t.raises:
+        if issubclass(ecls, c):
+            if best is None or issubclass(c, best[0]):
+                best = (c, clauses)
+    return best
+
+
 def snapshot(env):
     out = {}
     for k, v in env.items():
@@ -408,21 +436,34 @@ def replay(t: Target, ob, model, mod):
         out = t.native_call(mod, conc, model)
         w['observed'] = repr(out)[:400]
         cl = info.get('clause')
-        if cl is None:
-            # unexpected exception obligation
-            if out[0] == 'raise':
-                w['replayed'] = True
-                w['reason'] = f'real function raised {out[1]!r}'
-            else:
-                w['reason'] = 'real function did not raise on the concretised input'
-            return w
+        sym_outcome = (info.get('outcome') or ('?',))[0]
         nenv = dict(conc)
         nenv.update(out[2] if len(out) > 2 and out[2] else {})
         nenv['old'] = conc
-        if out[0] == 'return':
-            nenv['result'] = out[1]
-        else:
-            nenv['exc'] = out[1]
+        if out[0] == 'raise':
+            e = out[1]
+            entry = match_raises(t, type(e))
+            if entry is None:
+                w['replayed'] = True
+                w['reason'] = f'real function raised {type(e).__name__}, which the contract does not allow'
+                return w
+            nenv['exc'] = e
+            for rc in entry[1]:
+                try:
+                    if not native_clause(rc.fn, nenv):
+                        w['replayed'] = True
+                        w['reason'] = f'real function raised {type(e).__name__} and clause {rc.name} is false'
+                        return w
+                except Exception as ex:
+                    w['reason'] = f'clause {rc.name} not evaluable natively: {type(ex).__name__}: {ex}'
+                    return w
+            w['reason'] = f'real function raised {type(e).__name__} as the contract allows (model relies on an assumed callee outcome)'
+            return w
+        # native return
+        nenv['result'] = out[1]
+        if sym_outcome != 'return' or cl is None:
+            w['reason'] = 'real function returned normally on the concretised input (symbolic path took an assumed callee exception)'
+            return w
         try:
             ok = native_clause(cl.fn, nenv)
             if ok is False and cl.known:
@@ -443,3 +484,53 @@ def replay(t: Target, ob, model, mod):
         w['reason'] = f'replay error: {type(e).__name__}: {e}'
         w['trace'] = traceback.format_exc()[-800:]
     return w
+
+
+# --------------------------------------------------------------------------- callee contracts from type descriptors
+
+
+def fresh_of(I, ty, hint='r'):
+    """fresh symbolic value of a type descriptor: 'int'|'bool'|'str'|'bytes'|('opt',T)|('tuple',[T..])|('const',v)"""
+    p = I.p
+    if isinstance(ty, str):
+        return p.fresh(ty, hint)
+    if ty[0] == 'opt':
+        p.counter += 1
+        return Opt(z3.Bool(f'{hint}!isnone!{p.counter}'), fresh_of(I, ty[1], hint))
+    if ty[0] == 'tuple':
+        return tuple(fresh_of(I, x, f'{hint}{i}') for i, x in enumerate(ty[1]))
+    if ty[0] == 'const':
+        return ty[1]
+    raise Unsupported(f'type descriptor {ty!r}')
+
+
+def contract_model(callee: 'Target', result_type, argnames, raises=()):
+    """Callee contract as a model: havoc the result, assume the callee's ensures clauses (modular call:
+    the caller sees only the contract). `raises`: exception classes the callee may raise (each forks)."""
+
+    def fn(I, args, kwargs):
+        env = dict(zip(argnames, args))
+        env.update(kwargs)
+        for n in argnames:
+            if n not in env:
+                raise Unsupported(f'contract_model({callee.name}): missing argument {n}')
+        for ec in raises:
+            I.p.counter += 1
+            if I.p.choose(z3.Bool(f'callee_raises!{ec.__name__}!{I.p.counter}')):
+                raise PyRaise(ExcVal(ec))
+        r = fresh_of(I, result_type, 'ret_' + callee.qualname.split('.')[-1])
+        env['result'] = r
+        env['old'] = dict(env)
+        for cl in callee.ensures:
+            f = SX.func_from_pyfunc(cl.fn, spec=True)
+            names = [a.arg for a in f.node.args.args]
+            if any(n not in env for n in names):
+                continue  # clause talks about ghost/universal inputs the caller does not have
+            g = eval_clause(I, cl.fn, env)
+            if cl.known and known_active(cl.known[0]):
+                kk = eval_clause(I, cl.known[1], env)
+                g = SX.z3_or(kk, g)
+            I.p.assume(g)
+        return r
+
+    return Model(fn, f'{callee.name} (own contract, proved as its own target)', assumed=False)
